@@ -7,6 +7,7 @@ from __future__ import annotations
 
 import hashlib
 import json
+import logging
 import signal
 import time
 
@@ -15,15 +16,43 @@ import numpy as np
 from sim import actions, alpha, oracles, seams
 from sim.world import World, reset_library
 
-STEP_TIMEOUT_S = 120
+STEP_TIMEOUT_S = 75
 
 
-class StepTimeout(Exception):
+class StepTimeout(BaseException):
+    # not an Exception: the generic "the library raised" handler must not mistake the watchdog for the library
     pass
 
 
 def _alarm(signum, frame):
     raise StepTimeout()
+
+
+class _FormatOnly(logging.Handler):
+    """A handler that does what any real handler does - it formats the record - and writes nowhere."""
+
+    def emit(self, record):
+        try:
+            record.getMessage()
+        except Exception:
+            pass
+
+
+_HANDLER = _FormatOnly()
+
+
+def set_logging(debug):
+    """The logging configuration of the process is part of the environment a run happens in: a user
+    who calls logging.basicConfig(level=logging.DEBUG) must get the same physics. (jax's own loggers
+    are kept at WARNING, their debug records are expensive and not the library's.)"""
+    root = logging.getLogger()
+    if _HANDLER not in root.handlers:
+        root.addHandler(_HANDLER)
+    logging.getLogger("jax").setLevel(logging.WARNING)
+    logging.getLogger("jaxlib").setLevel(logging.WARNING)
+    root.setLevel(logging.DEBUG if debug else logging.WARNING)
+    # env.boot() silences the library's INFO chatter with logging.disable(CRITICAL); a DEBUG run lifts that
+    logging.disable(logging.NOTSET if debug else logging.CRITICAL)
 
 
 def make_chooser(seed, ctx):
@@ -168,6 +197,7 @@ def execute_run(
     """cfg: {seed, contraction, lib_seed, mode('forced'|'real'), ops{name:spec}, max_steps, forced{}}"""
     seed = int(cfg.get("seed", 0))
     reset_library(contraction=cfg.get("contraction", True), seed=cfg.get("lib_seed", 1))
+    set_logging(bool(cfg.get("debuglog")))
     ctx = {"sid": None, "nondeg": 0, "forced": cfg.get("forced"), "follow": cfg.get("follow")}
     seams.reset(mode=cfg.get("mode", "forced"), chooser=make_chooser(seed, ctx))
     world = World()
